@@ -330,8 +330,8 @@ def c01(rep, tier, seed, wd, replay):
         # histories with concurrently issued requests: keys with high watermarks are re-asked for signed targets while
         # other keys advance (judged order-free: no two released attestations of one key are slashable)
         dh = build_harness(wd)
-        run_conc(rep, dh, wd, hist.interop_keys(dh), Rng(seed * 77 + 1), 0, 0, 250 if tier != "thorough" else 600, [None, 2],
-                 want_lin=False, n_cross=2 if tier != "thorough" else 12, cross_kind="att")
+        run_conc(rep, dh, wd, hist.interop_keys(dh), Rng(seed * 77 + 1), 3 if tier != "thorough" else 20, 0, 250 if tier != "thorough" else 600, [None, 2],
+                 want_lin=False, n_cross=2 if tier != "thorough" else 12, cross_kind="att", steer_kinds=["deadline-rollback-att"])
 
 
 def c02(rep, tier, seed, wd, replay):
@@ -353,8 +353,8 @@ def c02(rep, tier, seed, wd, replay):
         # histories with concurrently issued requests: keys with high watermarks are re-asked for signed slots while
         # other keys advance (judged order-free: no two released proposals of one key share a slot)
         dh = build_harness(wd)
-        run_conc(rep, dh, wd, hist.interop_keys(dh), Rng(seed * 77 + 2), 0, 0, 250 if tier != "thorough" else 600, [None, 2],
-                 want_lin=False, n_cross=2 if tier != "thorough" else 12, cross_kind="prop")
+        run_conc(rep, dh, wd, hist.interop_keys(dh), Rng(seed * 77 + 2), 3 if tier != "thorough" else 20, 0, 250 if tier != "thorough" else 600, [None, 2],
+                 want_lin=False, n_cross=2 if tier != "thorough" else 12, cross_kind="prop", steer_kinds=["deadline-rollback-prop"])
 
 
 def c05(rep, tier, seed, wd, replay):
@@ -941,6 +941,11 @@ def c10(rep, tier, seed, wd, replay):
         th = None
     run_imp_scenarios(rep, dh, wd, scen)
     rep.cov["traces_validated_against_impl"] = len(scen)
+    # after an import, requests THROUGH THE SIGNER (by name, by key, by an over-long spelling of the key, by both) at or
+    # below the imported values must be refused: the imported record is the one the request's resolved key consults
+    if REPLAY is None or replay_history() is not None:
+        run_hist_property(rep, tier, seed, wd, "C10", SIGN_KINDS + ("export", "restart", "importsvc"), {"clean": True, "huge": False}, (0, 0),
+                          judges=[judge_after_import], corpus=False, extra_hist=lambda k_, r_: live_import_histories(k_, r_, tier))
     if th is not None:
         th.join()
         (io, crashed, err), mo = bulk_res.get("impl", ([], True, "bulk run did not finish")), bulk_res.get("model", [])
@@ -966,20 +971,24 @@ def c08(rep, tier, seed, wd, replay):
     prove(rep, "C08")
     dh = build_harness(wd)
     big = tier == "thorough"
-    nacct = 300 if big else 65
+    nacct = 600 if big else 300
     keys = hist.interop_keys(dh, nacct + 2)
     rng = Rng(seed * 31337 + 8)
     accts = [hist.Acct("Wallet 1" if i % 2 == 0 else "Wallet 2", "Account %d" % i, keys[i]) for i in range(nacct)]
     perms = [("c", ".*", ["All"])]
     cfg = hist.config_lines(accts, perms, ["10.0.0.1"])
-    sizes = [1, 2, 3, 15, 16, 17, 33, 64, 65] + ([127, 128, 129, 300] if big else [])
+    sizes = [1, 2, 3, 15, 16, 17, 33, 64, 65] + ([127, 128, 129] if big else [])
+    big_sizes = [257, 300] + ([255, 256, 513, 600] if big else [])
     ops = []
     epoch = 1
     g = hist.HistGen(rng, accts, {"clean": True})
 
     def adr(a):
         return rng.choice(["n:" + hx(a.path), "k:" + a.pk.hex()])
-    for n in sizes:
+    n_small_ops = None
+    for n in sizes + big_sizes:
+        if n == big_sizes[0] and n_small_ops is None:
+            n_small_ops = len(ops)
         picks = rng.shuffle(accts)[:n]
         items = []
         for a in picks:
@@ -1022,6 +1031,8 @@ def c08(rep, tier, seed, wd, replay):
         epoch += 4
         ms = ";".join("%s,%s,%s" % (adr(a), hist.dom32(DOM_RANDAO, rng).hex(), bytes(rng.below(256) for _ in range(32)).hex()) for a in picks)
         ops.append("msign %s - - %s" % (hx("c"), ms))
+    ops_big = ops[n_small_ops:]
+    ops = ops[:n_small_ops]
     for i in range(40 if not big else 300):
         a = rng.choice(accts)
         rt = [bytes(rng.below(256) for _ in range(32)).hex() for _ in range(3)]
@@ -1031,12 +1042,22 @@ def c08(rep, tier, seed, wd, replay):
         ops.append("sign %s - %s %s,%s -" % (hx("c"), adr(a), hist.dom32(DOM_RANDAO, rng).hex(), rt[0]))
         epoch += 2
     all_h = []
-    for p in ([1, 2, 3, 16] if not big else [1, 2, 3, 16, 128]):
-        h = {"cfg": cfg, "ops": ops, "accts": accts, "opts": {}, "gomaxprocs": p}
-        crashed, err = engines.exec_histories(dh, wd, [h], env={"GOMAXPROCS": str(p)}, jobs=1)
-        if crashed:
-            rep.broken.append(("implementation-crash:ssz", err, False))
-        all_h.append(h)
+    runs = [({"cfg": cfg, "ops": ops, "accts": accts, "opts": {}, "gomaxprocs": p}, "ssz") for p in ([1, 2, 3, 16] if not big else [1, 2, 3, 16, 128])]
+    runs.append(({"cfg": cfg, "ops": ops_big, "accts": accts, "opts": {}, "gomaxprocs": 3}, "ssz-big"))
+    # the same requests through the real gRPC API (TLS, interceptors, handlers): whatever the handlers do with a batch
+    # (splitting, copying results back) must keep entry i the answer to request i
+    for p in ([4] if not big else [2, 16]):
+        runs.append(({"cfg": ["viagrpc"] + cfg, "ops": ops_big + ops[:12], "accts": accts, "opts": {}, "gomaxprocs": p, "viagrpc": True}, "ssz-grpc"))
+    from concurrent.futures import ThreadPoolExecutor as _TPE
+
+    def _run(hr):
+        h_, label_ = hr
+        return label_, engines.exec_histories(dh, wd, [h_], env={"GOMAXPROCS": str(h_["gomaxprocs"])}, jobs=1)
+    with _TPE(max_workers=8) as ex_:
+        for (h_, _), (label_, (crashed, err)) in zip(runs, ex_.map(_run, runs)):
+            if crashed:
+                rep.broken.append(("implementation-crash:" + label_, err, False))
+            all_h.append(h_)
     # many signing requests in flight at once (more goroutines than processors): whatever is shared between concurrent
     # signing operations must not leak from one request into another's signature.  Generic signing is stateless, so the
     # model's answer does not depend on the order.
@@ -1255,6 +1276,62 @@ def gob_records(dh, specs):
     return [bytes.fromhex(l.strip()) for l in out.splitlines()]
 
 
+def judge_after_import(rep, dh, wd, all_h):
+    """an instance that imported (slot, source, target) for a key must refuse what the exporting instance — which had
+    signed up to those values — refuses: a proposal at or below the slot, an attestation at or below the target or
+    with a lower source"""
+    for h in all_h:
+        if not h.get("imports"):
+            continue
+        imp_ = {}
+        for i, op in enumerate(h["ops"]):
+            f = op.split()
+            if f[0] == "importsvc" and i < len(h["impl"]) and h["impl"][i].strip() == "ok":
+                imp_[bytes.fromhex(f[1])] = (int(f[2]), int(f[3]), int(f[4]))
+        rel = hist.released(h["ops"], h["impl"], h["accts"])
+        first_imp = min([i for i, op in enumerate(h["ops"]) if op.startswith("importsvc")] or [10 ** 9])
+        for (k, key, data, sig, i, j, st) in rel:
+            if i < first_imp or key not in imp_:
+                continue
+            slot, src, tgt = imp_[key]
+            d = data.split(",")
+            bad_ = (k == "prop" and slot >= 0 and int(d[1]) <= slot) or \
+                   (k == "att" and tgt >= 0 and (int(d[6]) <= tgt or int(d[4]) < src))
+            if bad_:
+                rep.violation("decision-differs-after-import", "after importing protection data the instance signed a request the exporting instance refuses",
+                              {"config": h["cfg"], "ops": h["ops"][:i + 1], "imported": {"slot": slot, "source": src, "target": tgt}})
+                return True
+    return False
+
+
+
+def live_import_histories(keys_, rng_, tier):
+    """an export imported through rules.Service.ImportSlashingProtection into an instance that is RUNNING and has
+    already been asked about the key (a refused request leaves its store empty): afterwards it must decide like
+    the exporting instance"""
+    accts_, perms_, admins_ = hist.std_config(keys_, nacct=5)
+    cfg_ = hist.config_lines(accts_, perms_, admins_)
+    H = []
+    for q in range(4 if tier != "thorough" else 40):
+        r2 = rng_.fork()
+        a = r2.choice([x for x in accts_ if x.unlockable and x.wallet == "Wallet 1"])
+        spell = ["n:" + hx(a.path), "k:" + a.pk.hex(), "k:" + a.pk.hex() + "00", "b:%s:%s" % (hx(a.path), a.pk.hex())]
+        n0 = spell[0]
+        slot, src, tgt = 50 + r2.below(50), 10 + r2.below(10), 30 + r2.below(10)
+        ops_ = []
+        if r2.chance(0.5):
+            ops_.append(att_line("client1", n0, 7, 7, 0))                      # refused (target <= source): store stays empty
+        else:
+            ops_ += [prop_line("client1", n0, 3, 0), att_line("client1", n0, 1, 2, 0)]   # low values signed before
+        ops_ += ["export", "importsvc %s %d %d %d" % (a.pk.hex(), slot, src, tgt), "export",
+                 prop_line("client1", r2.choice(spell), slot - 1 - r2.below(3), 1), prop_line("client1", spell[2], slot, 1), prop_line("client1", r2.choice(spell), slot, 1),
+                 att_line("client1", r2.choice(spell), src - 1, tgt + 1, 1), att_line("client1", spell[2], src, tgt, 1),
+                 att_line("client1", r2.choice(spell), src, tgt, 1), att_line("client1", r2.choice(spell), src, tgt - 1, 1), "export",
+                 prop_line("client1", n0, slot + 1, 2), att_line("client1", n0, src, tgt + 1, 2), "export", "restart", "export"]
+        H.append({"cfg": cfg_, "ops": ops_, "accts": accts_, "opts": {}, "imports": True})
+    return H
+
+
 def c11(rep, tier, seed, wd, replay):
     import imp
     rep.cov["rule"] = ("(a) clean histories with frequent exports: every export must state exactly the highest released slot/source/"
@@ -1297,33 +1374,6 @@ def c11(rep, tier, seed, wd, replay):
                     v = ex.get(k, ("-1", "-1", "-1"))
                     yield ("jexport %s %s %s %s" % (k, v[0], v[1], v[2]), (i, 0, k[:16]))
 
-    def judge_after_import(rep, dh, wd, all_h):
-        """an instance that imported (slot, source, target) for a key must refuse what the exporting instance — which had
-        signed up to those values — refuses: a proposal at or below the slot, an attestation at or below the target or
-        with a lower source"""
-        for h in all_h:
-            if not h.get("imports"):
-                continue
-            imp_ = {}
-            for i, op in enumerate(h["ops"]):
-                f = op.split()
-                if f[0] == "importsvc" and i < len(h["impl"]) and h["impl"][i].strip() == "ok":
-                    imp_[bytes.fromhex(f[1])] = (int(f[2]), int(f[3]), int(f[4]))
-            rel = hist.released(h["ops"], h["impl"], h["accts"])
-            first_imp = min([i for i, op in enumerate(h["ops"]) if op.startswith("importsvc")] or [10 ** 9])
-            for (k, key, data, sig, i, j, st) in rel:
-                if i < first_imp or key not in imp_:
-                    continue
-                slot, src, tgt = imp_[key]
-                d = data.split(",")
-                bad_ = (k == "prop" and slot >= 0 and int(d[1]) <= slot) or \
-                       (k == "att" and tgt >= 0 and (int(d[6]) <= tgt or int(d[4]) < src))
-                if bad_:
-                    rep.violation("decision-differs-after-import", "after importing protection data the instance signed a request the exporting instance refuses",
-                                  {"config": h["cfg"], "ops": h["ops"][:i + 1], "imported": {"slot": slot, "source": src, "target": tgt}})
-                    return True
-        return False
-
     def judge(rep, dh, wd, all_h):
         bad = judge_lines(rep, all_h, exp_lines, "export_entries_judged")
         bad = [b for b in bad if b[-1] in ("EXPORT-NOT-EXACT",) or b[3] == "export-failed"]
@@ -1335,29 +1385,7 @@ def c11(rep, tier, seed, wd, replay):
         return False
     o2 = dict(opts)
 
-    def live_imports(keys_, rng_):
-        """an export imported through rules.Service.ImportSlashingProtection into an instance that is RUNNING and has
-        already been asked about the key (a refused request leaves its store empty): afterwards it must decide like
-        the exporting instance"""
-        accts_, perms_, admins_ = hist.std_config(keys_, nacct=5)
-        cfg_ = hist.config_lines(accts_, perms_, admins_)
-        H = []
-        for q in range(4 if tier != "thorough" else 40):
-            r2 = rng_.fork()
-            a = r2.choice([x for x in accts_ if x.unlockable and x.wallet == "Wallet 1"])
-            n0 = "n:" + hx(a.path)
-            slot, src, tgt = 50 + r2.below(50), 10 + r2.below(10), 30 + r2.below(10)
-            ops_ = []
-            if r2.chance(0.5):
-                ops_.append(att_line("client1", n0, 7, 7, 0))                      # refused (target <= source): store stays empty
-            else:
-                ops_ += [prop_line("client1", n0, 3, 0), att_line("client1", n0, 1, 2, 0)]   # low values signed before
-            ops_ += ["export", "importsvc %s %d %d %d" % (a.pk.hex(), slot, src, tgt), "export",
-                     prop_line("client1", n0, slot - 1 - r2.below(3), 1), prop_line("client1", n0, slot, 1), att_line("client1", n0, src - 1, tgt + 1, 1),
-                     att_line("client1", n0, src, tgt, 1), att_line("client1", n0, src, tgt - 1, 1), "export",
-                     prop_line("client1", n0, slot + 1, 2), att_line("client1", n0, src, tgt + 1, 2), "export", "restart", "export"]
-            H.append({"cfg": cfg_, "ops": ops_, "accts": accts_, "opts": {}, "imports": True})
-        return H
+    live_imports = lambda keys_, rng_: live_import_histories(keys_, rng_, tier)
     run_hist_property(rep, tier, seed, wd, "C11", SIGN_KINDS + ("export", "restart", "importsvc"), o2, sizes, judges=[judge, judge_after_import], corpus=False,
                       nontrivial=lambda h: sum(1 for o in h["ops"] if o == "export") >= 2, extra_hist=live_imports)
     # (b) legacy gob records
@@ -1483,7 +1511,7 @@ def c11(rep, tier, seed, wd, replay):
     rep.cov["roundtrip_scenarios"] = len(scen)
 
 
-def run_conc(rep, dh, wd, keys, rng, n_steered, n_soak, soak_size, gomaxprocs, want_lin=True, want_slash=True, n_cross=0, cross_kind=None, n_deadline=0):
+def run_conc(rep, dh, wd, keys, rng, n_steered, n_soak, soak_size, gomaxprocs, want_lin=True, want_slash=True, n_cross=0, cross_kind=None, n_deadline=0, steer_kinds=None):
     """steered schedules + soak; returns (found_violation, stats)"""
     import conc
     from common import run_impl, run_model
@@ -1494,7 +1522,7 @@ def run_conc(rep, dh, wd, keys, rng, n_steered, n_soak, soak_size, gomaxprocs, w
         env = {"GOMAXPROCS": str(p)} if p else None
         scen = []
         for _ in range(n_steered):
-            kind, prefix, parks, cops, workers = conc.steered(rng.fork(), accts)
+            kind, prefix, parks, cops, workers = conc.steered(rng.fork(), accts, steer_kinds)
             scen.append((kind, prefix, parks, cops, workers))
         for _ in range(n_soak):
             scen.append(("soak", [], "-", conc.soak(rng.fork(), accts, soak_size), 32))
